@@ -36,12 +36,17 @@ import (
 type c41Prog struct {
 	Max     int
 	Threads [][]int // per thread: write sizes per round
+	Two     bool    // family "2p": thread 0 uses a pool with cap Max, the other threads a SECOND pool with cap Max2
+	Max2    int
 }
 
 func (p c41Prog) String() string {
 	var th []string
 	for _, t := range p.Threads {
 		th = append(th, strings.Trim(strings.ReplaceAll(fmt.Sprint(t), " ", ","), "[]"))
+	}
+	if p.Two {
+		return fmt.Sprintf("max=%d,second-pool-max=%d|%s", p.Max, p.Max2, strings.Join(th, "|"))
 	}
 	return fmt.Sprintf("max=%d|%s", p.Max, strings.Join(th, "|"))
 }
@@ -55,6 +60,25 @@ func (p c41Prog) String() string {
 // minimum allocation: any written buffer is over cap), cap 64 (small writes stay within).
 func c41Programs(arg string) []c41Prog {
 	var out []c41Prog
+	if arg == "2p" {
+		// two pools in one process: what one releases must never come out of the other
+		for _, mm := range [][2]int{{0, 8}, {64, 8}, {0, 64}, {8, 64}} {
+			over2 := mm[1] + 1
+			var seq12 [][]int
+			for _, a := range []int{1, over2} {
+				seq12 = append(seq12, []int{a})
+				for _, b := range []int{1, over2} {
+					seq12 = append(seq12, []int{a, b})
+				}
+			}
+			for _, a := range seq12 {
+				for _, b := range [][]int{{0}, {1}, {0, 1}, {1, 1}} {
+					out = append(out, c41Prog{Max: mm[0], Threads: [][]int{a, b}, Two: true, Max2: mm[1]})
+				}
+			}
+		}
+		return out
+	}
 	for _, max := range []int{0, 8, 64} {
 		over := max + 1
 		if max == 0 {
@@ -73,14 +97,14 @@ func c41Programs(arg string) []c41Prog {
 		case "2x2":
 			for _, a := range seq12 {
 				for _, b := range seq12 {
-					out = append(out, c41Prog{max, [][]int{a, b}})
+					out = append(out, c41Prog{Max: max, Threads: [][]int{a, b}})
 				}
 			}
 		case "3x1":
 			for _, a := range seq1 {
 				for _, b := range seq1 {
 					for _, c := range seq1 {
-						out = append(out, c41Prog{max, [][]int{a, b, c}})
+						out = append(out, c41Prog{Max: max, Threads: [][]int{a, b, c}})
 					}
 				}
 			}
@@ -89,7 +113,7 @@ func c41Programs(arg string) []c41Prog {
 				for _, b := range seq12 {
 					for _, c := range seq12 {
 						if len(a)+len(b)+len(c) > 3 {
-							out = append(out, c41Prog{max, [][]int{a, b, c}})
+							out = append(out, c41Prog{Max: max, Threads: [][]int{a, b, c}})
 						}
 					}
 				}
@@ -116,6 +140,10 @@ func c41Run(arg string) explore.RunFn {
 		}
 		prog := progs[pi-1]
 		pool := mempool.NewBuffer(prog.Max)
+		pool2 := pool
+		if prog.Two {
+			pool2 = mempool.NewBuffer(prog.Max2)
+		}
 
 		var viol []explore.Violation
 		seenKey := map[string]bool{}
@@ -133,8 +161,15 @@ func c41Run(arg string) explore.RunFn {
 		seen := map[*bytes.Buffer]bool{}    // buffers ever handed out
 		inPool := map[*bytes.Buffer]int{}   // number of Puts since last hand-out
 		wrote := map[*bytes.Buffer][]byte{} // what the holder wrote
+		poolOf := map[*bytes.Buffer]bool{}  // family 2p: buffer -> it was last put into the second pool
 		var log []string
 
+		maxOf := func(ti int) int {
+			if prog.Two && ti > 0 {
+				return prog.Max2
+			}
+			return prog.Max
+		}
 		check := func(who int, b *bytes.Buffer, where string) {
 			if b == nil {
 				add("nil-buffer:"+kind, where+": Get returned nil")
@@ -146,16 +181,23 @@ func c41Run(arg string) explore.RunFn {
 			if h, ok := held[b]; ok {
 				add("shared-buffer:handed-out-while-held:"+kind, fmt.Sprintf("%s: Get returned the buffer that thread %d still holds", where, h))
 			}
-			if prog.Max > 0 && b.Cap() > prog.Max {
-				add("overcap-buffer:handed-out", fmt.Sprintf("%s: Get returned Cap()=%d from a pool capped at %d", where, b.Cap(), prog.Max))
+			if mx := maxOf(who); mx > 0 && b.Cap() > mx {
+				add("overcap-buffer:handed-out", fmt.Sprintf("%s: Get returned Cap()=%d from a pool capped at %d", where, b.Cap(), mx))
+			}
+			if owner, ok := poolOf[b]; ok && prog.Two && owner != (who > 0) {
+				add("foreign-buffer:handed-out", fmt.Sprintf("%s: Get returned a buffer that was released into the OTHER pool", where))
 			}
 		}
 
 		for ti, rounds := range prog.Threads {
 			ti, rounds := ti, rounds
 			zzvrt.Go(fmt.Sprintf("user%d", ti), func() {
+				pl, mx := pool, prog.Max
+				if prog.Two && ti > 0 {
+					pl, mx = pool2, prog.Max2
+				}
 				for ri, n := range rounds {
-					b := pool.Get()
+					b := pl.Get()
 					where := fmt.Sprintf("thread %d round %d", ti, ri)
 					check(ti, b, where)
 					if b == nil {
@@ -174,17 +216,18 @@ func c41Run(arg string) explore.RunFn {
 					data := bytes.Repeat([]byte{byte('A' + ti)}, n)
 					b.Write(data)
 					wrote[b] = append([]byte{}, b.Bytes()...)
-					log = append(log, fmt.Sprintf("t%d.get(reused=%v,cap=%s)", ti, reused, c41CapClass(b.Cap(), prog.Max)))
+					log = append(log, fmt.Sprintf("t%d.get(reused=%v,cap=%s)", ti, reused, c41CapClass(b.Cap(), mx)))
 					zzvrt.Point("c41-use") // the user works with the buffer for a while
 					if !bytes.Equal(b.Bytes(), wrote[b]) || held[b] != ti {
 						add("shared-buffer:content-changed-while-held:"+kind, fmt.Sprintf("%s: buffer held %q after the holder's write, now holds %q", where, wrote[b], b.Bytes()))
 					}
-					if prog.Max > 0 && b.Cap() > prog.Max {
+					if mx > 0 && b.Cap() > mx {
 						o.Counters["overcap_put"]++
 					}
 					delete(held, b)
 					inPool[b]++
-					pool.Put(b)
+					poolOf[b] = prog.Two && ti > 0
+					pl.Put(b)
 					log = append(log, fmt.Sprintf("t%d.put", ti))
 				}
 			})
@@ -218,6 +261,26 @@ func c41Run(arg string) explore.RunFn {
 				add("shared-buffer:handed-out-while-held:"+kind, "drain: pool holds a buffer that is still handed out")
 			}
 			held[b] = -1 // the drain keeps everything it gets
+		}
+		if prog.Two {
+			for i := 0; i <= puts; i++ {
+				b := pool2.Get()
+				if b == nil || !seen[b] {
+					break
+				}
+				kept++
+				if b.Len() != 0 {
+					add("dirty-buffer:kept:second-pool", fmt.Sprintf("drain: second pool kept a buffer with Len()=%d", b.Len()))
+				}
+				if prog.Max2 > 0 && b.Cap() > prog.Max2 {
+					add("overcap-buffer:kept", fmt.Sprintf("drain: second pool capped at %d kept a buffer with Cap()=%d", prog.Max2, b.Cap()))
+				}
+				if _, ok := held[b]; ok {
+					add("shared-buffer:handed-out-while-held:second-pool", "drain: a buffer came out of both pools")
+				}
+				held[b] = -1
+			}
+			o.Counters["two_pool_programs"] = 1
 		}
 		o.Counters["kept_buffers"] += kept
 		for _, p := range x.Points {
@@ -273,16 +336,18 @@ func init() {
 		c.Rep.Level = "model_checking"
 		c.Rep.Assumption("sync.Pool is modelled as a LIFO store whose Get may find the pool emptied (environment choice pool-miss); per-P caches and victim caches of the real sync.Pool are not modelled (they only change WHICH pooled buffer is returned, never hand one out twice)")
 		c.Rep.Assumption("scheduling points: Pool.Get, Pool.Put and one point while a user holds a buffer; bytes.Buffer itself is not instrumented, so unsynchronised accesses to one buffer are C33's subject, not C41's")
-		c.Rep.Set("program_families", map[string]int{"2x2": len(c41Programs("2x2")), "3x1": len(c41Programs("3x1")), "3x2": len(c41Programs("3x2"))})
+		c.Rep.Set("program_families", map[string]int{"2x2": len(c41Programs("2x2")), "3x1": len(c41Programs("3x1")), "3x2": len(c41Programs("3x2")), "2p": len(c41Programs("2p"))})
 		unb := []explore.Bounds{{Unbounded: true}}
 		a := newDfsAgg(c)
 		if c.Quick() {
 			a.run("c41", "2x2", unb, 35*time.Second)
 			a.run("c41", "3x1", unb, 15*time.Second)
+			a.run("c41", "2p", unb, 15*time.Second)
 			a.run("c41", "3x2", []explore.Bounds{{Preempt: 0, Env: 1}, {Preempt: 1, Env: 2}}, 20*time.Second)
 		} else {
 			a.run("c41", "2x2", unb, 2*time.Minute)
 			a.run("c41", "3x1", unb, 1*time.Minute)
+			a.run("c41", "2p", unb, 1*time.Minute)
 			a.run("c41", "3x2", []explore.Bounds{{Preempt: 1, Env: 2}, {Preempt: 2, Env: 3}, {Preempt: 3, Env: 3}, {Unbounded: true}}, 7*time.Minute)
 		}
 		a.requireCounters("reused_buffer", "overcap_put", "pool_miss_taken", "kept_buffers")
